@@ -401,6 +401,17 @@ let predict_ammo fmt en depth nto k fin file toks obs =
              let es_spec = List.map2 (fun (e : entry) l -> { e with e_tag = line_tag l }) es ls in
              let (a, d, b) = entries (fun () -> json_stream_decode simple_url cfg0 kn ents JEof) es_spec in
              Some (a, d, b, true))
+    | "jsona" ->
+        (* the same members as the elements of one JSON array: readArray decodes them into the elements of a new
+           slice (each a zero entity before its members are stored), scanAmmos replays them by index *)
+        let ls = List.map parse_jline toks in
+        let ents = lines_entities ls in
+        (match read_array simple_url ents, json_array_decode simple_url cfg0 kn ents with
+         | Some es, Some ds ->
+             let es_spec = List.map2 (fun (e : entry) l -> { e with e_tag = line_tag l }) es ls in
+             Some (shoot_deliveries cfg e_tag e_path e_x O one ds, delivered ds,
+                   ammo_spec cfg e_tag e_path e_x O one (cycle_take kn es_spec es_spec), true)
+         | _ -> None)
     | _ -> None in
   match res with
   | None -> ("render-mismatch", "BAD:render-mismatch", false)
